@@ -204,6 +204,21 @@ async fn run_bgp(evs: Vec<String>) -> (String, bool, bool, u32) {
 
 // ------------------------------------------------------------------ tokens
 
+/// `k` applied to the per-peer header of a Peer Up / Peer Down frame.
+fn with_pph<R>(f: &[u8], k: impl FnOnce(routecore::bmp::message::PerPeerHeader<&[u8]>) -> R) -> Option<R> {
+    use routecore::bmp::message::Message as M;
+    match M::from_octets(f).ok()? {
+        M::PeerUpNotification(x) => Some(k(x.per_peer_header())),
+        M::PeerDownNotification(x) => Some(k(x.per_peer_header())),
+        _ => None,
+    }
+}
+
+/// Do two Peer Up / Peer Down frames name the same peer for `PeerStates` (routecore's own `Eq`)?
+fn same_peer(a: &[u8], b: &[u8]) -> bool {
+    with_pph(a, |pa| with_pph(b, |pb| pa == pb).unwrap_or(false)).unwrap_or(false)
+}
+
 /// Classify every completely read frame with the real parser (what the model takes as input).
 fn tokens(script: &Script, fatal: &dyn Fn(ErrorKind) -> bool) -> (String, String, bool, bool) {
     use routecore::bmp::message::Message as M;
@@ -219,8 +234,11 @@ fn tokens(script: &Script, fatal: &dyn Fn(ErrorKind) -> bool) -> (String, String
         if v != '1' { toks.push("-".to_string()); continue; }
         let m = M::from_octets(&f[..]).unwrap();
         let mut pq = |pph: routecore::bmp::message::PerPeerHeader<&[u8]>| -> (usize, usize) {
-            let pk = f[6..40].to_vec();
-            let p = match pkeys.iter().position(|k| *k == pk) { Some(i) => i, None => { pkeys.push(pk); pkeys.len() - 1 } };
+            // `p` = the class of this header under the real `PerPeerHeader` `Eq` (the key of `PeerStates`'
+            // HashMap), decided by the real `==` against one representative frame per class. NOT the raw
+            // 34 header bytes: `address()` of an IPv4 header (V flag clear) reads only the last 4 of the
+            // 16 address bytes, so headers that differ in the 12 unused bytes are the same peer.
+            let p = match pkeys.iter().position(|k| same_peer(k, f)) { Some(i) => i, None => { pkeys.push(f.to_vec()); pkeys.len() - 1 } };
             let qk = format!("{}|{}|{:?}", pph.address(), pph.asn(), pph.rib_type());
             let q = match qkeys.iter().position(|k| *k == qk) { Some(i) => i, None => { qkeys.push(qk); qkeys.len() - 1 } };
             (p + 1, q + 1)
@@ -361,6 +379,33 @@ fn main() {
     record(&mut rec, "cut", &tw, o);
     let o = rt.block_on(run_tcp(tw.clone()));
     record(&mut rec, "tcp", &tw, o);
+
+    // 0b. corpus (false alarm of session 4, minimised from five thorough-tier long sessions): a Peer Up
+    //     whose IPv4 per-peer header carries stray bytes in the 12 unused octets of the 16-octet address
+    //     field is the SAME `PeerStates` key as the clean header (routecore's `Eq`/`Hash` go through
+    //     `address()`), so a later clean Peer Down removes it (`W<id>`); with the V flag set the octets count.
+    let dirty = |mut m: Vec<u8>, edits: &[(usize, u8)]| -> Vec<u8> { for (i, b) in edits { m[*i] = *b; } m };
+    let corpus: Vec<Script> = vec![
+        vec![Item::Data(initiation()), Item::Data(dirty(peer_up(1), &[(19, 0x4b), (22, 0x49), (45, 0xdb)])), Item::Data(peer_down(1))],
+        vec![Item::Data(initiation()), Item::Data(dirty(peer_up(0), &[(17, 0x52)])), Item::Data(peer_down(0))],
+        vec![Item::Data(initiation()), Item::Data(dirty(peer_up(1), &[(16, 0xe4)])), Item::Data(peer_down(1))],
+        vec![Item::Data(initiation()), Item::Data(dirty(peer_up(2), &[(20, 0x47)])), Item::Data(peer_down(2))],
+        vec![Item::Data(initiation()), Item::Data(dirty(peer_up(2), &[(17, 0xbd), (45, 0x27), (47, 0x62)])), Item::Data(peer_down(2))],
+        // the other way round, a repeated Peer Up under the other spelling, a reset at the end
+        vec![Item::Data(initiation()), Item::Data(peer_up(0)), Item::Data(dirty(peer_down(0), &[(18, 0x99)]))],
+        vec![Item::Data(initiation()), Item::Data(peer_up(0)), Item::Data(dirty(peer_up(0), &[(27, 0x01)])), Item::Data(peer_down(0)), Item::Data(peer_down(0))],
+        vec![Item::Data(initiation()), Item::Data(dirty(peer_up(1), &[(16, 0xe4)])), Item::Data(peer_up(0)), Item::Data(peer_down(1)), Item::Fault(ErrorKind::ConnectionReset)],
+        // contrast: IPv6 header (V flag): the same octets are part of the address, two different peers
+        vec![Item::Data(initiation()), Item::Data(dirty(peer_up(0), &[(7, 0x80), (17, 0x52)])), Item::Data(dirty(peer_down(0), &[(7, 0x80)]))],
+        // contrast: a differing distinguisher octet is a different peer
+        vec![Item::Data(initiation()), Item::Data(dirty(peer_up(0), &[(15, 0xc9)])), Item::Data(peer_down(0))],
+    ];
+    for (i, s) in corpus.iter().enumerate() {
+        rec.bump("cut.corpus.header-spelling");
+        let o = rt.block_on(run_cut(s.clone(), 1));
+        record(&mut rec, "cut", s, o);
+        if i == 0 || i == 7 { let o = rt.block_on(run_tcp(s.clone())); record(&mut rec, "tcp", s, o); }
+    }
 
     // 1. tcp: the ways a real connection ends
     let base = gen_stream(&mut g, false);
